@@ -31,6 +31,27 @@ def toVotes (v : V) : Except Err Votes := do
     | .cand _, _ => throw eType
     | .tie _, _ => throw eUnsupported)
 
+/-- first id used for keys that are Tie objects (beyond every candidate id of the protocol) -/
+def freshBase : Nat := 1000000000
+
+/-- simple votes whose keys may include Tie objects (e.g. previous gains with an unbroken tie used as
+    votes by PreviousGainThreshold): Tie keys travel under fresh ids, `table` maps them back -/
+def toVotesT (v : V) : Except Err (Votes × List (Cand × List Cand)) := do
+  let kvs ← v.items
+  let rec go : List (Key × V) → Nat → Except Err (Votes × List (Cand × List Cand))
+    | [], _ => pure ([], [])
+    | p :: ps, fresh => do
+        let r ← p.2.asNum
+        match p.1 with
+        | .cand c => do let (vs, tb) ← go ps fresh; pure ((c, r) :: vs, tb)
+        | .tie cs => do let (vs, tb) ← go ps (fresh + 1); pure ((fresh, r) :: vs, (fresh, cs) :: tb)
+  go kvs freshBase
+
+def candV (table : List (Cand × List Cand)) (c : Cand) : V :=
+  match table.find? (fun p => p.1 = c) with
+  | some p => .tie p.2
+  | Option.none => .cand c
+
 def slotV : Slot → V
   | .cand c => .cand c
   | .tie cs => .tie (sortNat cs)
@@ -53,8 +74,11 @@ def pluralitySig : Sig := { seats := true, prev := false, max := false }
 /-- InputOrderSelector.evaluate (auxiliary.py L107-117) -/
 def inputOrderLeaf : Sem := fun a => do
   let kvs ← a.votes.items
-  let n ← seatsDefault1 a.n
-  pure (.list ((kvs.take n).map (fun p => V.ofKey p.1)))
+  match a.n, kvs with
+  | some .none, [] => pure (.list [])       -- `i < None` is never evaluated on an empty dict
+  | _, _ => do
+    let n ← seatsDefault1 a.n
+    pure (.list ((kvs.take n).map (fun p => V.ofKey p.1)))
 
 /-- a `prev_gains` / `max_seats` dict; a Tie key (left over from an unbroken tie of an earlier stage) can
     never match a candidate, so it is carried under a fresh id beyond every candidate id -/
@@ -67,7 +91,7 @@ def toNatMap (v : V) : Except Err (List (Cand × Nat)) := do
         match p.1 with
         | .cand c => do let r ← go ps fresh; pure ((c, k) :: r)
         | .tie _ => do let r ← go ps (fresh + 1); pure ((fresh, k) :: r)
-  go kvs 1000000000
+  go kvs freshBase
 
 def keyV (k : Key) : Key :=
   match k with
@@ -77,14 +101,24 @@ def keyV (k : Key) : Key :=
 /-- HighestAverages.evaluate(votes, n_seats, prev_gains={}, max_seats={}) (proportional.py L421-478) -/
 def haLeaf (div : Nat → Rat) : Sem := fun a => do
   let votes ← toVotes a.votes
-  let n ← match a.n with
-    | some v => v.asNat
-    | Option.none => throw eType
   let prev ← toNatMap (a.prev.getD (.dict []))
   let caps ← toNatMap (a.max.getD (.dict []))
+  let n ← match a.n with
+    | some .none =>
+        -- n_seats=None (a district missing from the apportionment): L436-442 compare
+        -- `cand_total < max_seats.get(cand, None)` party by party, then L443 unpacks the pool, then
+        -- L447 subtracts from None
+        if votes.any (fun p => decide (0 < div (natLookup prev p.1 0)) && !(caps.any (fun q => q.1 = p.1)))
+        then throw eType
+        else if votes.all (fun p => !(decide (0 < div (natLookup prev p.1 0))
+                    && decide (natLookup prev p.1 0 < natLookup caps p.1 0)))
+        then throw .valueError
+        else throw eType
+    | some v => v.asNat
+    | Option.none => throw eType
   let r ← highestAverages { div := div, votes := votes, n := n, prev := prev, caps := caps }
   pure (.dict (r.filterMap (fun p => match p.1 with
-    | .cand c => if c ≥ 1000000000 then Option.none else some (Key.cand c, V.num p.2)
+    | .cand c => if c ≥ freshBase then Option.none else some (Key.cand c, V.num p.2)
     | k => some (keyV k, V.num p.2))))
 
 def haSig : Sig := { seats := true, prev := true, max := true }
@@ -94,8 +128,8 @@ def absThreshold (t : Rat) (eq : Bool) (votes : Votes) : List Cand :=
   ((sortDesc votes).filter (fun p => decide (p.2 > t) || (eq && decide (p.2 = t)))).map (·.1)
 
 def absThresholdLeaf (t : Rat) (eq : Bool) : Sem := fun a => do
-  let votes ← toVotes a.votes
-  pure (.list ((absThreshold t eq votes).map V.cand))
+  let (votes, table) ← toVotesT a.votes
+  pure (.list ((absThreshold t eq votes).map (candV table)))
 
 /-- RelativeThreshold.evaluate (threshold.py L77-92): `Fraction(n_votes, total)` -/
 def relThreshold (t : Rat) (eq : Bool) (votes : Votes) : Except Err (List Cand) :=
@@ -106,9 +140,9 @@ def relThreshold (t : Rat) (eq : Bool) (votes : Votes) : Except Err (List Cand) 
     decide (p.2 / total > t) || (eq && decide (p.2 / total = t)))).map (·.1))
 
 def relThresholdLeaf (t : Rat) (eq : Bool) : Sem := fun a => do
-  let votes ← toVotes a.votes
+  let (votes, table) ← toVotesT a.votes
   let r ← relThreshold t eq votes
-  pure (.list (r.map V.cand))
+  pure (.list (r.map (candV table)))
 
 def seatlessSig : Sig := { seats := false, prev := false, max := false }
 
@@ -117,8 +151,8 @@ def prevGainThresholdLeaf (t : Rat) (eq : Bool) : Sem := fun a => do
   match a.prev with
   | Option.none => throw eType
   | some p => do
-      let votes ← toVotes p
-      pure (.list ((absThreshold t eq votes).map V.cand))
+      let (votes, table) ← toVotesT p
+      pure (.list ((absThreshold t eq votes).map (candV table)))
 
 def prevGainSig : Sig := { seats := false, prev := true, max := false }
 
